@@ -15,10 +15,12 @@ package main
 import (
 	"errors"
 	"fmt"
+	"os"
 	"sort"
 	"strconv"
 	"strings"
 	"sync"
+	"time"
 
 	"github.com/folbricht/desync"
 
@@ -502,6 +504,8 @@ type c11Case struct {
 	ImplLog  string   `json:"impl_log,omitempty"`
 	Model    string   `json:"model_results,omitempty"`
 	ModelLog string   `json:"model_log,omitempty"`
+	ImplFinal  string `json:"impl_final_contents,omitempty"`
+	ModelFinal string `json:"model_final_contents,omitempty"`
 	Fresh    bool     `json:"swap_stacks_use_fresh_members"`
 }
 
@@ -540,6 +544,25 @@ func c11NewWorld(members []string) (*c11World, error) {
 		w.members = append(w.members, m)
 	}
 	return w, nil
+}
+
+// c11FinalContents lists what every member holds at the end, in the oracle's format.
+func c11FinalContents(w *c11World) string {
+	var ms []string
+	for _, m := range w.members {
+		var es []string
+		for i := 0; i < 16; i++ {
+			if o, ok := m.content[i]; ok {
+				e := fmt.Sprintf("%d:%d", i, o.Tag)
+				if !o.Valid {
+					e += "!"
+				}
+				es = append(es, e)
+			}
+		}
+		ms = append(ms, joinOr(es, ","))
+	}
+	return joinOr(ms, ";")
 }
 
 func joinOr(l []string, sep string) string {
@@ -693,11 +716,12 @@ func c11Check(o *vh.Oracle, r *vh.Result, c *c11Case, record bool) (bad bool, er
 		if oerr != nil {
 			return bad, oerr
 		}
-		p := strings.SplitN(ans, "|", 2)
-		if len(p) != 2 {
+		p := strings.SplitN(ans, "|", 3)
+		if len(p) != 3 {
 			return bad, fmt.Errorf("bad oracle answer %q", ans)
 		}
-		c.Model, c.ModelLog = p[0], p[1]
+		c.Model, c.ModelLog, c.ModelFinal = p[0], p[1], p[2]
+		c.ImplFinal = c11FinalContents(run.w)
 		if r != nil {
 			r.Corr()
 		}
@@ -710,6 +734,11 @@ func c11Check(o *vh.Oracle, r *vh.Result, c *c11Case, record bool) (bad bool, er
 			bad = true
 			if record {
 				r.Fail("corr", "corr:C11/member-calls", fmt.Sprintf("member call logs differ: model %s, implementation %s (chain %s)", c.ModelLog, c.ImplLog, c.Top), c)
+			}
+		} else if c.ModelFinal != c.ImplFinal {
+			bad = true
+			if record {
+				r.Fail("corr", "corr:C11/final-contents", fmt.Sprintf("final member contents differ: model %s, implementation %s (chain %s)", c.ModelFinal, c.ImplFinal, c.Top), c)
 			}
 		}
 	}
@@ -998,10 +1027,20 @@ func runC11(a vh.Args, o *vh.Oracle, r *vh.Result) error {
 	if a.Replay != "" {
 		var probe struct {
 			Conc string `json:"conc"`
+			Blob string `json:"blob_hex"`
 		}
 		readJSON(a.Replay, &probe)
 		if probe.Conc != "" {
 			return c11ReplayConc(a, o, r)
+		}
+		if probe.Blob != "" {
+			var cc c11CLICase
+			if err := readJSON(a.Replay, &cc); err != nil {
+				return err
+			}
+			err := c11CheckCLI(a, o, r, os.Getenv("VH_DESYNC"), &cc, 0)
+			fmt.Printf("%s\nexit failure=%d, model %s\n", cc.Cli, cc.Exit, cc.Model)
+			return err
 		}
 		var c c11Case
 		if err := readJSON(a.Replay, &c); err != nil {
@@ -1050,7 +1089,21 @@ func runC11(a vh.Args, o *vh.Oracle, r *vh.Result) error {
 			r.Sample(map[string]interface{}{"chain": c.Top, "ops": strings.Join(c.Ops, "+"), "members": c.Members[:4], "results": c.Impl, "member_calls": c.ImplLog})
 		}
 	}
-	return c11Concurrent(a, o, r, rng)
+	if err := c11Concurrent(a, o, r, rng); err != nil {
+		return err
+	}
+	if err := c11Hammer(r, rng); err != nil {
+		return err
+	}
+	if err := c11CLI(a, o, r, rng); err != nil {
+		return err
+	}
+	if a.Tier == "thorough" {
+		if bin := chainsRaceBinary(a, r); bin != "" {
+			chainsRaceRun(a, r, bin, "C11race", "C11", 10*time.Minute)
+		}
+	}
+	return nil
 }
 
 // c11OpSegments is a cheap non-triviality measure: the number of distinct members in the log.
